@@ -46,10 +46,12 @@ def resolve(levels):
     eff = {}
     for key, default in DEFAULTS.items():
         if key == "template-data":
+            # level by level, starting from the least specific: each level is merged with the *effective* value of the level above it, so a
+            # non-map value at an intermediate level shadows the map above it also for the more specific levels
             td = {}
-            for lv in levels:
+            for lv in reversed(levels):
                 if isinstance(lv.get("template-data"), dict):
-                    td = deep_merge(td, lv["template-data"])
+                    td = deep_merge(lv["template-data"], td)
             eff[key] = td
             continue
         val = default
